@@ -244,6 +244,74 @@ func scenario(id string, seed uint64) runner.Result {
 	}
 }
 
+// longProgram: the history before the probe is long: 40-160 RPCs of the clean and early-ending kinds one
+// after the other on one soft-cancel connection. Whatever a single RPC leaves behind (a token, a
+// slot, a buffered packet) has had many chances to pile up when the probe comes.
+func longProgram(id string, seed uint64) runner.Result {
+	r := &payload.SplitMix{S: seed}
+	cfg := prog.GenConfig(r, false)
+	cfg.Client.SoftCancel, cfg.Server.SoftCancel = true, true
+	cfg.Net.Cap = -1
+	nrpc := 40 + r.Intn(121)
+	var scripts []*prog.Script
+	kinds := map[string]int{}
+	for i := 0; i < nrpc; i++ {
+		if r.Intn(4) == 0 {
+			scripts = append(scripts, prog.GenClean(r, uint64(i+1), cfg))
+			kinds["clean"]++
+		} else {
+			k := payload.Pick(r, prog.AbortKinds)
+			scripts = append(scripts, prog.GenAbort(r, uint64(i+1), cfg, k))
+			kinds[fmt.Sprint(k)]++
+		}
+	}
+	x := prog.New(cfg, scripts)
+	defer x.Rig.Teardown()
+	if r.Intn(2) == 0 {
+		x.Rig.Dir.Perturb(seed, 3)
+	}
+	x.Start([][]*prog.Script{scripts})
+	hist := fmt.Sprintf("%s | long program: %d RPCs one after the other, kinds %v; first: %s ; last: %s", cfg.Desc, nrpc, kinds, describe(scripts[0]), describe(scripts[nrpc-1]))
+	st := x.WaitClients()
+	if st == "watchdog" {
+		return runner.Inconcl(id, "watchdog: "+hist)
+	}
+	_, snap := census.Quiesce(rig.Watchdog)
+	if st != "ready" {
+		for _, l := range x.Logs() {
+			if started, done := l.ClientState(); started && !done {
+				if rig.IsClosed(x.Rig.Conn.Closed()) {
+					return runner.Inconcl(id, "a client call of the workload itself never returned on a closed connection (C05 territory): "+hist)
+				}
+				return runner.Violation(id, "long-program:rpc-never-completes", fmt.Sprintf("rpc #%d of the program (%s) never returns although every earlier RPC has ended and the connection is open\nprogram: %s\n%s", l.Script.Tag, describe(l.Script), hist, census.Dump(census.InDRPC(snap))))
+			}
+		}
+	}
+	for _, l := range x.Logs() {
+		if l.HandlerRan && !l.HandlerDone {
+			return runner.Inconcl(id, "a handler of the workload never returned: "+hist)
+		}
+	}
+	verdict, _ := x.Probe(100000)
+	_, snap = census.Quiesce(rig.Watchdog)
+	closed := rig.IsClosed(x.Rig.Conn.Closed())
+	res := runner.Hold(id, hist, !closed)
+	res.Events = int64(nrpc + 1)
+	res.Stats = map[string]int64{"probe_" + strings.SplitN(verdict, ":", 2)[0]: 1}
+	if closed {
+		res.Stats["conn_closed"] = 1
+	}
+	switch {
+	case verdict == "ok", closed:
+		return res
+	case verdict == "watchdog":
+		return runner.Inconcl(id, "watchdog during probe: "+hist)
+	case verdict == "blocked":
+		return runner.Violation(id, "long-program:probe-blocked", "connection looks healthy but the probe RPC is stuck at quiescence\nprogram: "+hist+"\n"+census.Dump(census.InDRPC(snap)))
+	}
+	return runner.Violation(id, "long-program:probe-failed:"+verdict, "connection not closed but the probe RPC failed with "+verdict+"\nprogram: "+hist)
+}
+
 // queuedCancel: RPC 1 is soft-cancelled while its cancel packet is parked in the
 // transport (its stream cannot finish yet); RPC 2 is issued, waits behind it and
 // is cancelled while waiting; the parked write is released; once both have
@@ -752,6 +820,10 @@ func gen(tier string, seed uint64) []runner.Scenario {
 		if i%15 == 0 {
 			id5 := fmt.Sprintf("mux-early-return/%d", i)
 			out = append(out, runner.Scenario{ID: id5, Run: func() runner.Result { return muxEarlyReturn(id5, payload.Hash(seed, 0xC064, uint64(i))) }})
+		}
+		if i%20 == 0 {
+			id8 := fmt.Sprintf("long-program/%d", i)
+			out = append(out, runner.Scenario{ID: id8, Run: func() runner.Result { return longProgram(id8, payload.Hash(seed, 0xC067, uint64(i))) }})
 		}
 		if i%10 == 0 {
 			id6 := fmt.Sprintf("sized-history/%d", i)
